@@ -315,7 +315,7 @@ fn wrong_literal(p: &mut Prng, ty: &Ty) -> Expr {
     }
 }
 
-pub const KINDS: [&str; 28] = [
+pub const KINDS: [&str; 31] = [
     "type",               // operand/argument/field/condition/element/return/assigned value of another type
     "arity",              // wrong number of arguments / pattern binders
     "unknown-name",       // a variable / function / type / field / variant nobody declared
@@ -344,6 +344,9 @@ pub const KINDS: [&str; 28] = [
     "drop-value-short-circuit", // … or only from the right operand of `&&` / `||`, which may not be evaluated
     "unknown-type",       // a type nobody declared, in an annotation / parameter / return type / field / variant
     "fstring-no-to-string", // an f-string interpolates a value whose type has no `to_string` method
+    "duplicate-in-type-decl", // a record type names a field twice / an enum a variant twice
+    "wrong-type-kind",    // a record literal of an enum type, a constructor of a record type
+    "field-of-non-record", // `.a0` on a value that is not a record
 ];
 
 pub struct Mutant {
@@ -955,6 +958,68 @@ pub fn mutate(prng: &mut Prng, prog: &Prog, kind: &'static str) -> Option<Mutant
                 },
             )
         }
+        "duplicate-in-type-decl" => {
+            let mut p = prog.clone();
+            let tys: Vec<usize> = (0..p.decls.len())
+                .filter(|i| match &p.decls[*i] {
+                    Decl::Rec { fields, .. } => !fields.is_empty(),
+                    Decl::Enum { variants, .. } => !variants.is_empty(),
+                    _ => false,
+                })
+                .collect();
+            if tys.is_empty() {
+                return None;
+            }
+            let i = *prng.pick(&tys);
+            match &mut p.decls[i] {
+                Decl::Rec { fields, .. } => {
+                    let f = fields[0].clone();
+                    fields.push(f);
+                    detail = "field declared twice".into();
+                }
+                Decl::Enum { variants, .. } => {
+                    let v = variants[0].clone();
+                    variants.push(v);
+                    detail = "variant declared twice".into();
+                }
+                _ => {}
+            }
+            Some(p)
+        }
+        "wrong-type-kind" => {
+            let recs: Vec<usize> = prog.decls.iter().filter_map(|d| if let Decl::Rec { name, .. } = d { Some(*name) } else { None }).collect();
+            let enums: Vec<usize> = prog.decls.iter().filter_map(|d| if let Decl::Enum { name, .. } = d { Some(*name) } else { None }).collect();
+            let mut seed = prng.clone();
+            prng.next();
+            pick_expr(
+                prng,
+                prog,
+                &|e, _, _| (matches!(e, Expr::Record(..)) && !enums.is_empty()) || (matches!(e, Expr::Ctor(..)) && !recs.is_empty()),
+                &mut |e, _, _| match e {
+                    Expr::Record(t, _) => {
+                        *t = *seed.pick(&enums);
+                        detail = "record literal of an enum type".into();
+                    }
+                    Expr::Ctor(t, _, _) => {
+                        *t = *seed.pick(&recs);
+                        detail = "constructor of a record type".into();
+                    }
+                    _ => {}
+                },
+            )
+        }
+        "field-of-non-record" => pick_expr(
+            prng,
+            prog,
+            &|e, r, _| matches!(e, Expr::Typed(inner, t) if matches!(**inner, Expr::Var(_)) && !matches!(t, Ty::Named(_))) && r != Role::Stmt,
+            &mut |e, _, _| {
+                if let Expr::Typed(inner, t) = e {
+                    let old = std::mem::replace(&mut **inner, Expr::UnitLit);
+                    **inner = Expr::Field(Box::new(old), 0);
+                    detail = format!("field of a value of type {}", t.roto());
+                }
+            },
+        ),
         "fstring-no-to-string" => {
             let mut seed = prng.clone();
             prng.next();
